@@ -15,7 +15,10 @@ use feos::pets::{PetsFunctional, PetsParameters, PetsRecord};
 use feos::gc_pcsaft::{GcPcSaftFunctional, GcPcSaftFunctionalParameters};
 use feos_core::parameter::{Identifier, IdentifierOption, Parameter, ParameterHetero, PureRecord};
 use feos_core::{Contributions, ReferenceSystem, State};
-use feos_dft::{Axis, DFTProfile, DFTSpecifications, Geometry, Grid, HelmholtzEnergyFunctional};
+use feos_dft::{
+    Axis, Convolver, ConvolverFFT, DFTProfile, DFTSpecifications, Geometry, Grid, HelmholtzEnergyFunctional, WeightFunction,
+    WeightFunctionInfo, WeightFunctionShape,
+};
 use feos_verif::cli::Cli;
 use feos_verif::configs::{params, Rng};
 use ndarray::{arr1, Array, Array1, Axis as NdAxis, Dimension, Ix1, Ix2, Ix3, RemoveAxis};
@@ -450,6 +453,129 @@ where
     })
 }
 
+/// Direct test of H_conv on the real convolver of a grid, independent of any functional: synthetic weight-function
+/// layouts with every block kind (local density, component-wise scalar / vector, FMT scalar / vector, in the row order
+/// the convolvers use), a constant density and constant partial derivatives (a distinct constant per scalar row, 0 in
+/// the vector rows).
+/// Expected (bulk convolver): weighted densities = weight constants(k=0) . rho (vector rows 0), functional derivative
+/// = sum over the scalar rows of constant * weight constant (vector rows contribute 0).
+fn convolver_case<D>(grid: &Grid, lanczos: Option<i32>, rng: &mut Rng) -> Value
+where
+    D: Dimension + RemoveAxis + 'static,
+    D::Larger: Dimension<Smaller = D>,
+    D::Smaller: Dimension<Larger = D>,
+    <D::Larger as Dimension>::Larger: Dimension<Smaller = D::Larger>,
+{
+    use WeightFunctionShape::*;
+    let nseg = 2 + rng.below(2);
+    let ci = Array1::from_shape_fn(nseg, |i| i);
+    let radii = |rng: &mut Rng| Array1::from_shape_fn(nseg, |_| rng.range(1.0, 2.4));
+    let scalar_shapes = [Theta, Delta, KR0, KR1];
+    let mut infos: Vec<WeightFunctionInfo<f64>> = Vec::new();
+    let mut layouts = Vec::new();
+    for l in 0..3 {
+        // layout 0: every block kind; 1, 2: random numbers of every kind (at least one vector block in layout 1)
+        let local = l == 0 || rng.below(2) == 0;
+        let (nsc, nvc, nsf, nvf) = if l == 0 { (2, 1, 2, 1) } else { (rng.below(3), if l == 1 { 1 + rng.below(2) } else { rng.below(2) }, 1 + rng.below(2), rng.below(2)) };
+        let mut info = WeightFunctionInfo::new(ci.clone(), local);
+        for _ in 0..nsc {
+            info = info.add(WeightFunction::new_unscaled(radii(rng), scalar_shapes[rng.below(4)]), false);
+        }
+        for _ in 0..nvc {
+            info = info.add(WeightFunction::new_unscaled(radii(rng), DeltaVec), false);
+        }
+        for _ in 0..nsf {
+            info = info.add(WeightFunction::new_unscaled(radii(rng), scalar_shapes[rng.below(4)]), true);
+        }
+        for _ in 0..nvf {
+            info = info.add(WeightFunction::new_unscaled(radii(rng), DeltaVec), true);
+        }
+        layouts.push(json!({"local": local, "scalar_comp": nsc, "vector_comp": nvc, "scalar_fmt": nsf, "vector_fmt": nvf}));
+        infos.push(info);
+    }
+    let conv: Arc<dyn Convolver<f64, D>> = ConvolverFFT::plan(grid, &infos, lanczos);
+    let ndim = D::NDIM.unwrap();
+    let mut shape = vec![nseg];
+    grid.axes().iter().for_each(|ax| shape.push(ax.grid.len()));
+    let rho_c: Vec<f64> = (0..nseg).map(|_| rng.range(0.002, 0.02)).collect();
+    let mut rho: Array<f64, D::Larger> = Array::zeros(shape).into_dimensionality().unwrap();
+    for (s, mut lane) in rho.outer_iter_mut().enumerate() {
+        lane.fill(rho_c[s]);
+    }
+    let rho_arr = Array1::from_vec(rho_c.clone());
+    let wd = conv.weighted_densities(&rho);
+    let mut wd_dev: f64 = 0.0;
+    let mut pds = Vec::new();
+    let mut fd_expect = Array1::<f64>::zeros(nseg);
+    for (w, info) in wd.iter().zip(infos.iter()) {
+        let wc = info.weight_constants(0.0, 0);
+        let bulk_wd = wc.dot(&rho_arr);
+        let [sc, vc, sf, vf] = info.as_slice();
+        let nrows = w.shape()[0];
+        let n_local = nrows - (sc.len() * nseg + vc.len() * nseg * ndim + sf.len() + vf.len() * ndim);
+        // row -> Some(bulk row) for scalar rows, None for vector rows
+        let mut rows: Vec<Option<usize>> = Vec::new();
+        let mut j = 0;
+        for _ in 0..n_local + sc.len() * nseg {
+            rows.push(Some(j));
+            j += 1;
+        }
+        for _ in 0..vc.len() * nseg * ndim {
+            rows.push(None);
+        }
+        for _ in 0..sf.len() {
+            rows.push(Some(j));
+            j += 1;
+        }
+        for _ in 0..vf.len() * ndim {
+            rows.push(None);
+        }
+        let scale = bulk_wd.iter().fold(0.0f64, |a, b| a.max(b.abs())).max(1e-300);
+        let mut pd = Array::zeros(w.raw_dim());
+        for ((row, r), mut pdrow) in w.outer_iter().zip(rows.iter()).zip(pd.outer_iter_mut()) {
+            let e = r.map(|j| bulk_wd[j]).unwrap_or(0.0);
+            for x in row.iter() {
+                wd_dev = wd_dev.max((x - e).abs() / scale);
+            }
+            // vector rows: 0, as in a uniform fluid (d phi / d n_vec vanishes at n_vec = 0); a non-zero constant there is
+            // not mapped to 0 by the DCT/DST convolvers (sine transform of a constant)
+            let c = if r.is_some() { rng.range(0.5, 2.0) } else { 0.0 };
+            pdrow.fill(c);
+            if let Some(j) = r {
+                for s in 0..nseg {
+                    fd_expect[s] += c * wc[[*j, s]];
+                }
+            }
+        }
+        pds.push(pd);
+    }
+    let fd = conv.functional_derivative(&pds);
+    let fscale = fd_expect.iter().fold(0.0f64, |a, b| a.max(b.abs())).max(1e-300);
+    let mut fd_dev: f64 = 0.0;
+    for (s, lane) in fd.outer_iter().enumerate() {
+        for x in lane.iter() {
+            fd_dev = fd_dev.max((x - fd_expect[s]).abs() / fscale);
+        }
+    }
+    json!({"segments": nseg, "layouts": layouts, "lanczos": lanczos, "rho": rho_c,
+           "wd_dev": fin(wd_dev), "fd_dev": fin(fd_dev), "fd_expect": fd_expect.to_vec()})
+}
+
+fn run_convolver(spec: &GridSpec, dim: usize, lanczos: Option<i32>, rng: &mut Rng) -> Value {
+    let r = catch_unwind(AssertUnwindSafe(|| match dim {
+        1 => convolver_case::<Ix1>(&spec.grid, lanczos, rng),
+        2 => convolver_case::<Ix2>(&spec.grid, lanczos, rng),
+        _ => convolver_case::<Ix3>(&spec.grid, lanczos, rng),
+    }));
+    match r {
+        Ok(v) => v,
+        Err(e) => {
+            let msg = e.downcast_ref::<String>().cloned().or_else(|| e.downcast_ref::<&str>().map(|s| s.to_string())).unwrap_or_default();
+            json!({"panic": msg})
+        }
+    }
+}
+
 fn run_uniform<F: HelmholtzEnergyFunctional>(spec: &GridSpec, dim: usize, bulk: &State<F>, lanczos: Option<i32>) -> Value {
     let g = spec.grid.clone();
     let r = catch_unwind(AssertUnwindSafe(|| match dim {
@@ -554,6 +680,17 @@ fn main() {
         grid_recs.push(rec);
     }
 
+    // ---------------- Part C0: H_conv directly on the real convolvers (synthetic weight-function layouts)
+    let mut conv_recs = Vec::new();
+    for (k, (spec, dim)) in specs.iter().enumerate() {
+        for rep in 0..(if full { 3 } else { 2 }) {
+            let lanczos = if (k + rep) % 2 == 0 { None } else { Some(1) };
+            let mut r2 = Rng(rng.0 ^ ((k * 7 + rep) as u64).wrapping_mul(0xA24BAED4963EE407));
+            let r = run_convolver(spec, *dim, lanczos, &mut r2);
+            conv_recs.push(json!({"grid": spec.name, "model": spec.model, "dim": dim, "result": r}));
+        }
+    }
+
     // ---------------- Part C: support run of H_conv on the real convolvers
     let mut uni = Vec::new();
     let mut add = |label: &str, f: &mut dyn FnMut(&GridSpec, usize, Option<i32>) -> Value| {
@@ -623,7 +760,19 @@ fn main() {
         let b = bulk_state(&f, rng.range(250.0, 400.0), &[rng.range(0.0002, 0.001), rng.range(0.002, 0.004), rng.range(0.001, 0.002)]);
         add("gc-PC-SAFT pentane/ethane/isobutane (hetero mixture)", &mut |s, d, l| run_uniform(s, d, &b, l));
     }
-    if full {
+    {
+        // associating functionals (mixture form of the association contribution: component-wise vector weighted
+        // densities followed by further rows)
+        let f = pcsaft_functional(&["water"], "gross2002.json", Some(FMTVersion::KierlikRosinberg));
+        let b = bulk_state(&f, rng.range(300.0, 500.0), &[rng.range(0.001, 0.03)]);
+        add("PC-SAFT water (association, KR)", &mut |s, d, l| run_uniform(s, d, &b, l));
+    }
+    {
+        let f = pcsaft_functional(&["methanol", "water"], "gross2002.json", None);
+        let b = bulk_state(&f, rng.range(300.0, 500.0), &[rng.range(0.001, 0.008), rng.range(0.002, 0.02)]);
+        add("PC-SAFT methanol/water (cross association)", &mut |s, d, l| run_uniform(s, d, &b, l));
+    }
+    {
         let f = gc_functional(&["ethanol", "hexane"]);
         let b = bulk_state(&f, rng.range(300.0, 450.0), &[rng.range(0.002, 0.006), rng.range(0.0003, 0.001)]);
         add("gc-PC-SAFT ethanol/hexane (hetero mixture, association)", &mut |s, d, l| run_uniform(s, d, &b, l));
@@ -637,5 +786,6 @@ fn main() {
         "grids": grid_recs,
         "grid_files": grid_files,
         "uniform": uni,
+        "convolver": conv_recs,
     }));
 }
